@@ -115,7 +115,14 @@ void SbmlPrinter::bvisit(const Piecewise &x)
 
 void SbmlPrinter::bvisit(const Infty &x)
 {
-    str_ = "inf";
+    if (x.is_negative_infinity()) {
+        str_ = "-inf";
+    } else if (x.is_positive_infinity()) {
+        str_ = "inf";
+    } else {
+        throw SymEngineException(
+            "SbmlPrinter: the complex infinity has no SBML form");
+    }
 }
 
 void SbmlPrinter::bvisit(const Constant &x)
